@@ -32,6 +32,14 @@ Theorem C11_euler_deg_rad_agree : forall angles order,
   euler ROps true angles order = euler ROps false (map (fun a => a * PI / 180) angles) order.
 Proof. exact euler_deg_rad_agree. Qed.
 
+(* the code converts degrees with the binary64 constant pi64 = 884279719003555/281474976710656 (tie lemma
+   T_euler_deg_ok: euler(deg) = euler_rad on a * pi64 / 180); with any constant k in place of PI the angle is off by
+   exactly |a| |k - PI| / 180.  The numeric bound |pi64 - PI| < 1.3e-16 is NOT proved here (coq-interval proves it in
+   10 s but brings Uint63 axioms that this development does not admit); it is covered by the correspondence check. *)
+Theorem C11_euler_deg_pi_constant_gap : forall a k,
+  Rabs (a * k / 180 - a * PI / 180) = Rabs a * Rabs (k - PI) / 180.
+Proof. exact deg_angle_gap. Qed.
+
 (* ------------------------------------------------------------------ rotation_from_up_and_look *)
 (* for non-zero, non-collinear up and look at any magnitude: a proper rotation taking up to +y (times |up|)
    and look to (0, b, c) with c > 0 *)
@@ -140,7 +148,7 @@ Example C11_up_look_inhabited : ~ collinear (V3 0 2 0) (V3 1 1 1).
 Proof. unfold collinear. P_vec.vunf. intros H. injection H as H1 H2 H3. Lra.lra. Qed.
 
 Definition C11_all := (C11_euler_is_ordered_product, C11_euler_applies_in_order, C11_axis_rotation_acts,
-  C11_euler_proper, C11_euler_deg_rad_agree, C11_up_look_spec, C11_up_look_rejects_zero,
+  C11_euler_proper, C11_euler_deg_rad_agree, C11_euler_deg_pi_constant_gap, C11_up_look_spec, C11_up_look_rejects_zero,
   C11_rotation_last_row, C11_rotation_acts, C11_rotation_matrix_used_as_given, C11_rotation_inverse_both_orders,
   C11_rotation_rodrigues_inverse_both_orders,
   C11_translation_last_row, C11_translation_acts, C11_translation_inverse_both_orders,
